@@ -371,3 +371,93 @@ func VH_C14_SharedOpts(which, tree, k int) {
 		vReach("a remote workspace was mapped")
 	}
 }
+
+// VH_C18_EveryFrame: rebasing is per frame: in a signature of nfr stack frames
+// plus a creator frame, the frame at index bad lies under no known root (it
+// stays unresolved) and every other frame - before and after it - lies under
+// the remote GOPATH and is rebased onto the local one, whatever the outcome for
+// its neighbours.
+//
+//verif:prop C18
+//verif:param nfr 2..3
+//verif:param bad 0..2
+func VH_C18_EveryFrame(nfr, bad int) {
+	if bad >= nfr {
+		return
+	}
+	name := func(tag string) string {
+		b := vBytes(tag, 1)
+		vAssume(vAnd(b[0] >= 'a', b[0] <= 'z'))
+		return string(b)
+	}
+	sig := &Signature{}
+	rels := make([]string, nfr)
+	for i := 0; i < nfr; i++ {
+		c := Call{}
+		rels[i] = name("pkg"+string(rune('0'+i))) + "/" + name("file"+string(rune('0'+i))) + ".go"
+		if i == bad {
+			c.RemoteSrcPath = "/zz/" + rels[i]
+		} else {
+			c.RemoteSrcPath = "/gp/src/" + rels[i]
+		}
+		sig.Stack.Calls = append(sig.Stack.Calls, c)
+	}
+	cb := Call{RemoteSrcPath: "/gp/src/c/c.go"}
+	sig.CreatedBy.Calls = []Call{cb}
+	ok := sig.updateLocations("/gr", "/LR", map[string]string{}, map[string]string{"/gp": "/LP"})
+	vReach("signature rebased")
+	vAssert(!ok, "an unresolved frame is reported")
+	for i := 0; i < nfr; i++ {
+		c := &sig.Stack.Calls[i]
+		if i == bad {
+			vAssert(vAnd(c.LocalSrcPath == "", c.Location == LocationUnknown), "the frame under no root stays unresolved")
+		} else {
+			vAssert(c.LocalSrcPath == "/LP/src/"+rels[i], "a frame under the remote GOPATH is rebased whatever its neighbours are")
+			vAssert(vAnd(c.RelSrcPath == rels[i], c.Location == GOPATH), "a frame under the remote GOPATH gets its relative path and class whatever its neighbours are")
+		}
+	}
+	vAssert(sig.CreatedBy.Calls[0].LocalSrcPath == "/LP/src/c/c.go", "the creator frame is rebased")
+}
+
+// VH_C18_SiblingRoots: root detection with a remote GOROOT and a remote GOPATH
+// whose names may share a prefix (/opt/go and /opt/gopath): one file under each,
+// both present locally; both roots are found and both frames rebased. Root
+// names are one and two symbolic bytes, so "one is a string prefix of the other"
+// is among the cases.
+//
+//verif:prop C18
+//verif:param order 0..1
+func VH_C18_SiblingRoots(order int) {
+	letter := func(tag string) byte {
+		b := vByte(tag)
+		vAssume(vAnd(b >= 'a', b <= 'z'))
+		return b
+	}
+	gr := string([]byte{letter("gr0")})
+	gp := string([]byte{letter("gp0"), letter("gp1")})
+	root := vTempRoot()
+	s := &Snapshot{LocalGOROOT: root + "/goroot", LocalGOPATHs: []string{root + "/gopath"}}
+	vSetFile(s.LocalGOROOT + "/src/fmt/print.go")
+	vSetFile(s.LocalGOPATHs[0] + "/src/p/q.go")
+	std := Call{RemoteSrcPath: "/" + gr + "/src/fmt/print.go"}
+	usr := Call{RemoteSrcPath: "/" + gp + "/src/p/q.go"}
+	g := &Goroutine{ID: 1, First: true}
+	if order == 0 {
+		g.Stack.Calls = []Call{std, usr}
+	} else {
+		g.Stack.Calls = []Call{usr, std}
+	}
+	s.Goroutines = []*Goroutine{g}
+	_ = s.guessPaths()
+	vReach("roots guessed")
+	vAssert(s.RemoteGOROOT == "/"+gr, "the remote GOROOT is found")
+	vAssert(s.RemoteGOPATHs["/"+gp] == s.LocalGOPATHs[0], "the remote GOPATH is found although its name may start like the GOROOT's")
+	for i := range g.Stack.Calls {
+		c := &g.Stack.Calls[i]
+		if c.RemoteSrcPath == std.RemoteSrcPath {
+			vAssert(c.LocalSrcPath == s.LocalGOROOT+"/src/fmt/print.go", "the standard library frame is rebased")
+		} else {
+			vAssert(c.LocalSrcPath == s.LocalGOPATHs[0]+"/src/p/q.go", "the GOPATH frame is rebased")
+		}
+	}
+}
